@@ -57,36 +57,36 @@ let ns_class res = Buffer.add_string b "NS "; pres (fun _ -> ()) res
 let () =
   register "stlread" (fun r ->
     let ign = rbool r in let d = rstr r in
-    let res = read_stl ign d in
+    let res = read_stl_c ign d in   (* the checked transcription (Model/StlC.v); equal to read_stl by Proofs/StlChk.v *)
     if read_faithful d then pres prdoc res else ns_class res);
   register "stlwrite" (fun r ->
     let now = rstr r in let md = ropt_with rwmeta r in let items = rlist rwitem r in
-    let res = write_stl now md items in
+    let res = write_stl_c now md items in   (* checked transcription *)
     if write_faithful md items then pres pstr res else ns_class res);
   register "stlenc" (fun r ->
     let t = rstr r in
-    if text_faithful t then (pint 0; pstr (encode_text_stl t)) else Buffer.add_string b "NS 0 ");
+    if text_faithful t then pres pstr (encode_text_stl_c t) else Buffer.add_string b "NS 0 ");
   register "stldec" (fun r ->
     let bs = rstr r in
     let (o, acc) = decode_bytes None bs in pstr o; popt acc);
   register "stlopenrow" (fun r ->
     let row = rstr r in let acc = ropt r in
-    pres (fun (l, acc') -> plist prun_stl l; popt acc') (open_row row [] [] sattr0_stl acc));
+    pres (fun (l, acc') -> plist prun_stl l; popt acc') (open_row_c row [] [] (Some sattr0_stl) acc));
   register "stlttxrow" (fun r ->
     let row = rstr r in let acc = ropt r in
-    let (l, acc') = stl_ttx_row row [] [] sattr0_stl false acc in
-    pint 0; plist prun_stl l; popt acc');
+    pres (fun (l, acc') -> plist prun_stl l; popt acc') (stl_ttx_row_c row [] [] sattr0_stl false acc));
   register "stlgsi" (fun r ->
     let blk = rstr r in
-    let res = parse_gsi blk in
+    let res = parse_gsi_c blk in   (* checked: the harness hands over 1024-byte blocks *)
     if gsi_faithful blk then pres pgsi res else ns_class res);
   register "stlgsiw" (fun r ->
     let g = rgsi r in
-    if time_faithful g.g_tcp && time_faithful g.g_tcf then (pint 0; pstr (gsi_bytes g)) else Buffer.add_string b "NS 0 ");
-  register "stltti" (fun r -> let blk = rstr r in let fps = rz r in ptti (parse_tti blk fps));
+    if time_faithful g.g_tcp && time_faithful g.g_tcf then pres pstr (gsi_bytes_c g) else Buffer.add_string b "NS 0 ");
+  register "stltti" (fun r -> let blk = rstr r in let fps = rz r in
+    match parse_tti_c blk fps with Ok t -> ptti t | Err _ -> pint 1 | Panic _ -> pint 2);
   register "stlttiw" (fun r ->
     let t = rtti r in let fps = rz r in let dsc = rstr r in
-    if time_faithful t.t_in && time_faithful t.t_out && text_faithful t.t_text then (pint 0; pstr (tti_bytes fps dsc Z0 t))
+    if time_faithful t.t_in && time_faithful t.t_out && text_faithful t.t_text then pres pstr (tti_bytes_c fps dsc Z0 t)
     else Buffer.add_string b "NS 0 ");
   (* C17/C18: schedules, failing streams, failing destinations *)
   register "stlreadsched" (fun r ->
